@@ -70,7 +70,9 @@ inductive Instr where
   | rel (site : Site) (src : Ref) (lax : Bool)
   /-- ownership of the resource held by `src` passes to the resource held by `owner` (a value stored
       under a key whose destructor frees it): releasing the owner releases it too -/
-  | give (src owner : Ref)
+  | give (src owner : Ref) (tag : Nat)
+  /-- the value stored under key `tag` in `owner` is overwritten by NULL: `owner` no longer owns it -/
+  | ungive (owner : Ref) (tag : Nat)
   /-- marks the C call of a classified callee (one per call; used by the sequence tie only) -/
   | mark (site : Site)
   | seti (dst : Ref) (n : Int)
@@ -116,7 +118,7 @@ structure St where
   pc : Nat
   vars : List ((Var × Nat) × Val)
   live : List (Nat × Kind)
-  owned : List (Nat × Nat)   -- (owner, owned)
+  owned : List (Nat × Nat × Nat)   -- (owner, owned, key tag)
   next : Nat
   base : Nat                 -- resources with id < base existed before the call
   injected : Bool            -- an acquisition has been made to fail
@@ -173,7 +175,7 @@ def isLive (live : List (Nat × Kind)) (id : Nat) : Bool := live.any (fun p => p
 def dropRes (live : List (Nat × Kind)) (id : Nat) : List (Nat × Kind) := live.filter (fun p => p.1 != id)
 
 /-- resources released together with `id` -/
-def ownedBy (ow : List (Nat × Nat)) (id : Nat) : List Nat := (ow.filter (fun p => p.1 == id)).map (·.2)
+def ownedBy (ow : List (Nat × Nat × Nat)) (id : Nat) : List Nat := (ow.filter (fun p => p.1 == id)).map (·.2.1)
 def dropAll (live : List (Nat × Kind)) (ids : List Nat) : List (Nat × Kind) :=
   live.filter (fun p => !ids.contains p.1)
 
@@ -237,10 +239,14 @@ def step (p : Prog) (s : St) (b : Bool) : StepR :=
                   else finish { s1 with fault := some (.releaseUnassigned site) } .undef
       | .undef => if lax then .next s1
                   else finish { s1 with fault := some (.releaseUnassigned site) } .undef
-    | .give src owner =>
+    | .give src owner tag =>
       match rd s src, rd s owner with
-      | .res a, .res b => .next { s1 with owned := (b, a) :: s1.owned }
+      | .res a, .res b => .next { s1 with owned := (b, a, tag) :: s1.owned }
       | _, _ => .next s1
+    | .ungive owner tag =>
+      match rd s owner with
+      | .res b => .next { s1 with owned := s1.owned.filter (fun p => !(p.1 == b && p.2.2 == tag)) }
+      | _ => .next s1
     | .mark site => .next { s1 with trace := .call site :: s1.trace }
     | .seti dst n => .next (wr s1 dst (.int n))
     | .copy dst src => .next (wr s1 dst (rd s src))
